@@ -38,7 +38,7 @@ def plan(tier, seed):
     n = 8 if tier == "quick" else 32
     for i in range(n):
         shards.append({"kind": "attack", "tier": tier, "seed": seed, "shard": i, "mtu": mtus[i % len(mtus)],
-                       "ticks": 500 if tier == "quick" else 6000, "subprocess": True})
+                       "ticks": 500 if tier == "quick" else 9000, "subprocess": True})
     for i in range(2 if tier == "quick" else 8):
         shards.append({"kind": "freerun", "tier": tier, "seed": seed, "shard": i, "producers": 6,
                        "per_producer": 4000 if tier == "quick" else 60000, "subprocess": True})
